@@ -36,7 +36,7 @@ LEVEL = {
                     'Flush makes disk = view and keeps view and length; on the handle model: a fresh Open after Sync fetches what the live handle fetches, and for every history and every abandonment point the disk is '
                     'the state of the last Sync. Composed: a 12-byte slot write through the buffer is putPointAt on the archives of the viewed image and leaves the disk alone, a slot read returns the stored point, '
                     'and Flush followed by Open on the disk bytes returns exactly the header and archives the handle showed. '
-                    'The code is compared after every operation (file bytes vs last-sync snapshot, second-handle fetches, a waiting opener), for failing CLI writes, and for handles that cannot write (what Sync acknowledges must be what a second handle reads).',
+                    'The code is compared after every operation (file bytes vs last-sync snapshot, second-handle fetches, a waiting opener), for failing CLI writes, and for handles that cannot write (what Sync acknowledges must be what a second handle reads); Create without O_EXCL over a synced file changes nothing before its own Sync (create_over, theorem and createover operation); batches re-sent with one point changed are on disk after Sync.',
             'design_ref': '5 C05',
             'note': _TB + 'Process death is modelled as dropping the handle with an intact kernel; power loss / fsync durability is outside the model, and so are failing writes: the filebuffer dependency drops the error of a failed pwritev, so the OS writes of Sync are assumed to succeed (handles that cannot write at all -- read-only flag, unwritable file -- are exercised by the rosync / unwritable operations).'},
     'C14': {'text': 'Theorems for every encodable object and every remainder: decode(encode x ++ r) = (x, r); for every proper prefix the decoder '
@@ -64,7 +64,8 @@ LEVEL = {
             'design_ref': '5 C08',
             'note': _TB + 'Commands read the wall clock; the harness recovers the clock from the command output. filepath.Glob is an oracle.'},
     'C09': {'text': 'Theorems: the listing is exactly the filter of the differing slots (in slot order, both values); clean iff no slot differs; value equality is NaN-aware '
-                    '(+0 = -0, last bit counts); verdict symmetric; self-comparison clean; verdicts of the comparison are ok/diff/err only.',
+                    '(+0 = -0, last bit counts); verdict symmetric; self-comparison clean; verdicts of the comparison are ok/diff/err only; the library comparison API agrees with itself '
+                    '(TimeSeries.Equal iff same range, step, length and DiffPoints lists nothing; Points.Equal iff equally long and Points.Diff lists nothing), run against the code by the tsapi operation.',
             'design_ref': '5 C09',
             'note': _TB + 'Which side is named when both files are missing depends on goroutine scheduling and is not compared.'},
     'C10': {'text': 'Theorems for every float-operation record: the j-th summed value is the left fold of Value.Add over the files in glob order; Value.Add skips NaN; '
@@ -108,12 +109,12 @@ LEVEL = {
             'note': _TB + 'go-whisper is modelled by Model/GoWhisperRef.v (its Fetch for the classic format), validated against the real go-whisper on every run.'},
     'C13': {'text': 'PARTIAL (protocol level). Theorems for every schedule: mutual exclusion is an invariant; the disk left by any interleaving is the sequential composition of the sessions in '
                     'lock-acquisition order (hence no lost update: n add-one sessions leave n); a failed Open leaves the lock free. Runtime side exercised, not proved: flock probes after every '
-                    'failing Open variant, blocking second Open in-process and cross-process, concurrent sessions with readers.',
+                    'failing Open variant, blocking second Open in-process and cross-process, concurrent sessions with readers; the commands that write are one session on their file: a copy from a server keeps its destination locked while the source is fetched, generate keeps the file it creates locked (and present) until it returns.',
             'design_ref': '5 C13',
             'note': _TB + 'Assumed: flock(2) grants LOCK_EX to one open file description at a time and releases it on close; the Go scheduler and GC finalisers are outside the model.'},
     'C15': {'text': 'Theorems: decoders are total functions into Ok/Want/Err with Go\'s integer wraps written out; a successful decode has allocated at most the size of its input; Open accepts a file only with a '
                     'validated header and sufficient length, and then every archive is a ring of the announced size; fetches on any such ring never panic whatever the slots hold (unaligned / garbage base included), '
-                    'and neither do single and batch updates (C15_update_never_panics_on_any_contents, C15_batch_update_never_panics_on_any_contents: success or the range error for any slot contents, every storable method, clocks of the domain).',
+                    'and neither do single and batch updates (C15_update_never_panics_on_any_contents, C15_batch_update_never_panics_on_any_contents: success or the range error for any slot contents, every storable method, clocks of the domain). The remote-read client is run against answers that announce more bytes than they send (memory stays in proportion to what arrived).',
             'design_ref': '5 C15',
             'note': _TB + 'Allocation is modelled as the size of the decoded result; the run measures runtime.MemStats.TotalAlloc in a child process under an address-space limit.'},
     'C17': {'text': 'PARTIAL. Theorems on the page-buffer model: a read never changes what the buffer shows nor the disk, and a read issued after another read returns what it returns alone '
